@@ -114,3 +114,20 @@ def gateSchedule (reserveFirst : Bool) (n k : Nat) : List Ev :=
 def openerTurn (s : St) : Turn := .fresh (s.refused == 0)
 
 end Model.C08.Handoff
+
+/-! ### What the dialing branch of the reuse loop is handed
+
+`ReuseConnTransport.ExchangeContext` labels whatever `getNewConn` returns as a connection opened for this
+call (`isNewConn = true`: its failure is final). `dialedOnly` (a regenerated fact) says that `getNewConn`
+returns the connection its own dial produced and nothing else. Without it a connection that went idle
+while the dial was running (it carried another query; `idle = some ok`: what the server does with the
+next query on it) may be handed out under the label "new". -/
+namespace Model.C08.DialHandOver
+
+/-- the turn the loop sees on its dialing branch: `own` = does the connection opened for this call work -/
+def dialTurn (dialedOnly : Bool) (idle : Option Bool) (own : Bool) : Turn :=
+  match dialedOnly, idle with
+  | false, some ok => .fresh ok      -- a pooled connection under the label "new"
+  | _, _ => .fresh own
+
+end Model.C08.DialHandOver
